@@ -58,6 +58,7 @@ where
     F: Float,
     StandardUniform: Distribution<F>,
 {
+    n: F,
     s: F,
     t: F,
     q: F,
@@ -124,7 +125,7 @@ where
             F::one() + n.ln()
         };
         debug_assert!(t > F::zero());
-        Ok(Zipf { s, t, q })
+        Ok(Zipf { n, s, t, q })
     }
 
     /// Inverse cumulative density function
@@ -153,6 +154,11 @@ where
         loop {
             let inv_b = self.inv_cdf(rng.sample(StandardUniform));
             let x = (inv_b + one).floor();
+            if x > self.n {
+                // `inv_cdf` maps `[0, 1)` to `[0, n)` only up to rounding: for the
+                // largest uniform values `inv_b` can round to `n`, giving `n + 1`.
+                continue;
+            }
             let mut ratio = x.powf(-self.s);
             if x > one {
                 ratio = ratio * inv_b.powf(self.s)
